@@ -53,7 +53,7 @@ PROPS = {
         assumptions=["fixed-size variables in the placement tie (record variables are covered by the implementation oracle only)"],
     ),
     "C04": dict(
-        lean_props=["H4.Props.C04Chunk", "H4.Props.C04MCache"],
+        lean_props=["H4.Props.C04Chunk", "H4.Props.C04MCache", "H4.Props.C04Fn"],
         engines=[
             E("chunk", "e_chunk.c", model="chunk", quick=dict(cases=400), thorough=dict(cases=15000, seeds=4, chunk=100)),
             # exhaustive: every chunk shape of every extent <= 4, <= 4x4, <= 3x3x2 (615 geometries) x nt 1,2,4; every in-range (pos,len) walk, aligned or not
